@@ -62,6 +62,7 @@ type loopInfo struct {
 	modAll   bool
 	ghostAll bool // a call in the loop has a contract without a frame: ghost state may change too
 	mods     map[string]bool
+	decHead  string // value of the `decreases` measure at the loop head of the current iteration
 }
 
 type FnTrans struct {
@@ -1575,6 +1576,23 @@ func (t *FnTrans) block(b *ssa.BasicBlock) {
 		if li.spec != nil {
 			for _, c := range li.spec.Invariants {
 				t.assumps = append(t.assumps, Assump{Guard: reach, F: Formula{Clause: c, Env: env}, Why: "loop invariant"})
+			}
+			if li.spec.Decreases != nil {
+				// termination measure: its value at the head of this iteration
+				func() {
+					defer func() {
+						if r := recover(); r != nil {
+							if ee, ok := r.(*exprError); ok {
+								t.staleClauses = append(t.staleClauses, fmt.Sprintf("decreases: %s:%d: %s", li.spec.Decreases.File, li.spec.Decreases.Line, ee.msg))
+								return
+							}
+							panic(r)
+						}
+					}()
+					if term, ok := t.toIdx(env.eval(li.spec.Decreases.Expr)); ok {
+						li.decHead = t.define(fmt.Sprintf("dec.loop%d", li.ordinal), t.mode.idxSort(), term)
+					}
+				}()
 			}
 		}
 		t.canary(fmt.Sprintf("loop%d", li.ordinal), reach)
